@@ -985,6 +985,23 @@ def oracle_c11(R):
                     if c['op'] == 'upload_part' and 'body_len' in c:
                         eff = max(eff, c['body_len'])
         eff = max(eff, cfg['multipart_chunksize'])
+        # when no part request was observed (failure / cancel before the
+        # first one) fall back on the oracle's own reading of the adjuster:
+        # clamp to the part-size limits, double while too many parts
+        lo, hi, mp = R.case.get('adj') or [5 * 1024 ** 2, 5 * 1024 ** 3,
+                                           10000]
+        for r in ups:
+            size = r['spec'].get('size') or 0
+            # (either order of the two adjustments; the larger result)
+            c = min(max(cfg['multipart_chunksize'], lo), hi)
+            eff = max(eff, c)
+            while c < hi and -(-size // c) > mp:
+                c = min(2 * c, hi)
+            eff = max(eff, c)
+            c = cfg['multipart_chunksize']
+            while c < hi and -(-size // c) > mp:
+                c = 2 * c
+            eff = max(eff, min(max(c, lo), hi))
         bound = (U + S) * max(eff, thr)
         timeline = []
         for (step, tid, k, info) in evs:
@@ -1006,6 +1023,12 @@ def oracle_c11(R):
         # transfer drops its buffers without a request finishing)
         stop = min([R.first_done.get(r['i'], 1 << 60) for r in ups
                     if not (r['outcome'] or {}).get('ok')] or [1 << 60])
+        # (with the serial executor the future only exists once the whole
+        # transfer has run: the first delivered fault marks the failure)
+        for r in ups:
+            if not (r['outcome'] or {}).get('ok'):
+                for (step, _, _, _) in delivered_for(R, r):
+                    stop = min(stop, step)
         timeline.sort()
         cur = 0
         peak = 0
@@ -1021,6 +1044,34 @@ def oracle_c11(R):
                       f'{peak} bytes read from user streams were awaiting a '
                       f'finished part request; bound (U={U}+S={S})*'
                       f'max(chunk={eff},thr={thr})={bound}'))
+    # ---- in-memory part tasks in flight (whatever the outcome): every
+    # UploadPartTask of a stream upload holds one part-sized buffer from its
+    # submission to its end, and the in-memory tag admits at most U of them
+    if ups and R.executors and not getattr(R, 'serial', False):
+        tids = {}
+        for r in ups:
+            f = r.get('future')
+            if f is not None:
+                tids[f.meta.transfer_id] = r['i']
+        tl2 = []
+        for it in R.executors[0].items:
+            if it.get('task') == 'UploadPartTask' and \
+                    it.get('transfer') in tids:
+                tl2.append((it['submit'], 1, 1))
+                if it['end'] is not None:
+                    tl2.append((it['end'], 0, -1))
+        tl2.sort()
+        cur = peak = 0
+        for (_, _, d) in tl2:
+            cur += d
+            peak = max(peak, cur)
+        if peak >= U:
+            R.c11_reached = True
+        if peak > U:
+            v.append(('c11:upload-inflight-parts-exceeded',
+                      f'{peak} in-memory part tasks of stream uploads were '
+                      f'queued or running at once; max_in_memory_upload_'
+                      f'chunks={U}'))
     # ---- downloads to non-seekable destinations
     downs = [r for r in R.all_recs() if r['type'] == 'download'
              and r['spec']['dst'] in ('nonseek', 'special')
